@@ -57,6 +57,20 @@ RNPrec(q, d) ==
        IN  DMk(ZMk(d[1][1], RoundMagRNE(d, qq)), qq)
 
 (*************************** conversion ************************************)
+\* An EXPLICIT flush request and 0 < |d| < 2^emin (precondition InSubRange(f, d)), rn = RN(f, d):
+\*  - rn is normal (d rounds up to +-2^emin on the lattice): the statement's first clause demands rn.  The package
+\*    rounds to p bits with unbounded exponent first and flushes what is still below 2^emin, so it returns a zero for
+\*    |d| in [2^emin - 2^(emin-p), 2^emin - 2^(emin-p-1)): clause flush_boundary_pbit (a known finding: flushing is
+\*    decided after a p-bit rounding, not on the lattice); any other zero there is a plain normal_rn;
+\*  - rn is subnormal or a zero: the request must be honoured, a signed zero is demanded (flush_not_honoured).
+M2FFlushFails(f, d, rn, bits) ==
+  LET s == d[1][1]
+  IN  IF IsNormal(f, rn) THEN
+        (IF bits = rn THEN {}
+         ELSE IF bits = SignedZero(f, s) /\ DLt(DAbs(RNPrec(f.p, d)), MinNormalD(f)) THEN {"flush_boundary_pbit"}
+         ELSE {"normal_rn"})
+      ELSE IF bits = SignedZero(f, s) THEN {} ELSE {"flush_not_honoured"}
+
 \* names of the clauses that bits = mpf2float(f, d) violates; flush is the
 \* flush_subnormals argument the caller passed to the conversion; rn = RN(f, d)
 \* (passed in so that a trace spec evaluates it once per event)
@@ -65,8 +79,8 @@ M2FFailsR(f, d, rn, bits, flush) ==
   ELSE LET s == d[1][1]
        IN  IF Overflows(f, d) THEN (IF bits = SignedInf(f, s) THEN {} ELSE {"overflow_inf"})
            ELSE IF Tiny(f, d) THEN (IF bits = SignedZero(f, s) THEN {} ELSE {"tiny_zero"})
+           ELSE IF flush /\ InSubRange(f, d) THEN M2FFlushFails(f, d, rn, bits)
            ELSE IF ~IsNormal(f, rn) \/ bits = rn THEN {}
-           ELSE IF flush /\ InSubRange(f, d) /\ bits = SignedZero(f, s) THEN {}
            ELSE {"normal_rn"}
 M2FFails(f, d, bits, flush) == M2FFailsR(f, d, RN(f, d), bits, flush)
 
@@ -112,8 +126,10 @@ BExact(f, fn, a, b) ==
 \*   backend_subnormal_far      subnormal-range result further than one lattice step from RN
 \*   backend_double_rounding    result = RN(RN_{p+xtra}(exact)) # RN(exact), xtra > 0
 \*   backend_rn                 any other difference from RN(exact)
+\*   backend_flush_not_honoured / backend_flush_boundary_pbit / backend_normal_rn: explicit flush request and an
+\*                              exact result in the subnormal range (see M2FFlushFails)
 \* Leniencies: with an explicit flush request nothing is demanded when an input
-\* is subnormal or the exact result lies in the subnormal range; when RN(exact)
+\* is subnormal; when RN(exact)
 \* is subnormal or zero-by-rounding and exact is not representable, one lattice step of error
 \* is tolerated (the conversion clause demands nothing there).
 BEFails(f, fn, a, b, flush, xtra, r, drfail) ==
@@ -128,7 +144,17 @@ BEFails(f, fn, a, b, flush, xtra, r, drfail) ==
   LET d == BExact(f, fn, a, b)
       subin == IsSubnormal(f, a) \/ (~unary /\ IsSubnormal(f, b))
   IN
-  IF flush = "true" /\ (subin \/ InSubRange(f, d)) THEN {}
+  IF flush = "true" /\ subin THEN {}
+  ELSE IF flush = "true" /\ InSubRange(f, d) THEN
+     \* explicit flush, normal (or zero) inputs, exact result in the subnormal range: the conversion clause for
+     \* an explicit flush request, on d or - with extra working precision - on d rounded to that precision
+     (LET f1 == IF DLt(DAbs(d), HalfMinSubD(f)) THEN (IF IsZero(f, r) THEN {} ELSE {"tiny_zero"})
+                ELSE M2FFlushFails(f, d, RN(f, d), r)
+          d2 == RNPrec(f.p + xtra, d)
+      IN  IF f1 = {} THEN {}
+          ELSE IF xtra > 0 /\ InSubRange(f, d2) /\ ~DLt(DAbs(d2), HalfMinSubD(f)) /\ M2FFlushFails(f, d2, RN(f, d2), r) = {}
+               THEN (IF drfail THEN {"backend_double_rounding"} ELSE {})
+          ELSE {"backend_" \o c : c \in f1})
   ELSE IF DIsZero(d) THEN (IF IsZero(f, r) THEN {} ELSE {"backend_zero"})
   ELSE
   LET rn == RN(f, d)
